@@ -15,19 +15,25 @@ pub struct VarDecl {
     /// Sorted, unique, non-empty.
     pub values: Vec<i32>,
     pub kind: VarKind,
+    /// A Boolean created with `Solver::new_literal_for_predicate`: true iff the predicate (over
+    /// an earlier variable) holds.
+    pub link: Option<Pred>,
 }
 
 impl VarDecl {
     pub fn boolean() -> VarDecl {
-        VarDecl { values: vec![0, 1], kind: VarKind::Bool }
+        VarDecl { values: vec![0, 1], kind: VarKind::Bool, link: None }
     }
     pub fn interval(lb: i32, ub: i32) -> VarDecl {
-        VarDecl { values: (lb..=ub).collect(), kind: VarKind::Interval }
+        VarDecl { values: (lb..=ub).collect(), kind: VarKind::Interval, link: None }
     }
     pub fn sparse(mut values: Vec<i32>) -> VarDecl {
         values.sort();
         values.dedup();
-        VarDecl { values, kind: VarKind::Sparse }
+        VarDecl { values, kind: VarKind::Sparse, link: None }
+    }
+    pub fn linked(p: Pred) -> VarDecl {
+        VarDecl { values: vec![0, 1], kind: VarKind::Bool, link: Some(p) }
     }
     pub fn lb(&self) -> i32 {
         self.values[0]
@@ -40,7 +46,10 @@ impl VarDecl {
     }
     pub fn to_json(&self) -> J {
         match self.kind {
-            VarKind::Bool => J::s("bool"),
+            VarKind::Bool => match &self.link {
+                Some(p) => J::obj(vec![("bool_for", p.to_json())]),
+                None => J::s("bool"),
+            },
             VarKind::Interval => J::obj(vec![("lb", J::i(self.lb())), ("ub", J::i(self.ub()))]),
             VarKind::Sparse => J::obj(vec![("values", J::ints(&self.values))]),
         }
@@ -49,7 +58,9 @@ impl VarDecl {
         match j {
             J::Str(_) => VarDecl::boolean(),
             _ => {
-                if let Some(v) = j.get("values") {
+                if let Some(p) = j.get("bool_for") {
+                    VarDecl::linked(Pred::from_json(p))
+                } else if let Some(v) = j.get("values") {
                     VarDecl::sparse(v.as_ints())
                 } else {
                     VarDecl::interval(j.at("lb").as_i32(), j.at("ub").as_i32())
@@ -488,6 +499,13 @@ impl RefModel {
         }
         let mut next = Vec::with_capacity(self.sols.len() * v.values.len());
         for s in &self.sols {
+            if let Some(p) = &v.link {
+                let mut t = Vec::with_capacity(s.len() + 1);
+                t.extend_from_slice(s);
+                t.push(p.holds(s) as i32);
+                next.push(t);
+                continue;
+            }
             for val in &v.values {
                 let mut t = Vec::with_capacity(s.len() + 1);
                 t.extend_from_slice(s);
